@@ -183,3 +183,23 @@ package throttle
 //@   option allow-exit yes
 //@   requires typeis(config, "*github.com/ozontech/file.d/plugin/action/throttle.Config") && params != nil
 //@   assert at "distrCfg := p.config.LimitDistribution.toInternal()" p.config.BucketInterval_ > 0 && p.config.BucketsCount >= 1
+
+// timeToBucketID: the bucket of a time is its nanosecond count divided by the interval's
+// nanosecond count (not a coarser unit: Duration.Milliseconds truncates, and two times
+// inside one configured interval would fall into different buckets).
+
+//@ func (bucketsMeta).timeToBucketID
+//@   ghost gn int = 0
+//@   ghost gi int = 0
+//@   ensures gi > 0 && gn >= 0 ==> result == gn / gi
+//@   callee UnixNano() (v)
+//@     pure
+//@     set gn := v
+//@   callee Nanoseconds() (v)
+//@     pure
+//@     ensures v > 0
+//@     set gi := v
+//@   callee UnixMilli() (v)
+//@     requires false
+//@   callee Milliseconds() (v)
+//@     requires false
